@@ -56,18 +56,30 @@ Section CommitDefs.
       forall t k, t < T -> 1 <= k -> acked n t w k -> term_at (llog n t) k = t ->
                   agree k (llog0 n T) (llog n t) \/ blamed n t k (T - 1).
 
-  Record inv3 (n : net) : Prop := {
+  (* the part that does not speak about quorums: inductive for [step V'] with any V',
+     given [fresh] and [agl] (the committed prefix of a node agrees with the log of the
+     leader of its term) *)
+  Record inv3a (n : net) : Prop := {
     i_commit_bounds : I_commit_bounds n;
-    i_hcommit : I_hcommit n;
-    i_ae_commit : I_ae_commit n;
-    i_hb : I_hb n;
     i_ack_le : I_ack_le n;
     i_ack_node : I_ack_node n;
     i_vote_pair : I_vote_pair n;
     i_vote_utd : I_vote_utd n;
-    i_rv : I_rv n;
+    i_rv : I_rv n
+  }.
+
+  (* the part that does *)
+  Record inv3b (n : net) : Prop := {
+    i_hcommit : I_hcommit n;
+    i_ae_commit : I_ae_commit n;
+    i_hb : I_hb n;
     i_elected : I_elected n
   }.
+
+  Definition agl (n : net) : Prop := forall w T,
+    term (nodes n w) = T -> lead n T <> None ->
+    agree (hcommit (nodes n w)) (log (nodes n w)) (llog n T) /\
+    hcommit (nodes n w) <= length (llog n T).
 
   (* ---- small facts ---- *)
 
@@ -209,11 +221,11 @@ Section CommitDefs.
   (* ---- leader completeness, in one state ---- *)
 
   Lemma leader_completeness0 n :
-    inv1 V n -> inv2 n -> inv3 n ->
+    inv2 n -> inv3b n ->
     forall T t k c, committed n t k -> t < T -> lead n T = Some c ->
                     agree k (llog0 n T) (llog n t).
   Proof.
-    intros H1 H2 H3 T. induction T as [T IH] using lt_wf_ind.
+    intros H2 H3 T. induction T as [T IH] using lt_wf_ind.
     intros t k c Hcm Hlt Hl.
     destruct (i_elected n H3 T c Hl) as (Q & (I1 & N1 & L1) & HQ).
     destruct Hcm as (Hr & Hterm & (Qa & (I2 & N2 & L2) & HQa)).
@@ -227,13 +239,13 @@ Section CommitDefs.
   Qed.
 
   Lemma leader_completeness1 n :
-    inv1 V n -> inv2 n -> inv3 n ->
+    inv2 n -> inv3b n ->
     forall T t k, committed n t k -> t < T -> lead n T <> None ->
                   agree k (llog n T) (llog n t).
   Proof.
-    intros H1 H2 H3 T t k Hcm Hlt Hl.
+    intros H2 H3 T t k Hcm Hlt Hl.
     destruct (lead n T) as [c|] eqn:E; [|congruence].
-    pose proof (leader_completeness0 n H1 H2 H3 T t k c Hcm Hlt E) as Hag.
+    pose proof (leader_completeness0 n H2 H3 T t k c Hcm Hlt E) as Hag.
     destruct (i_llog0 n H2 T) as (ext & ->).
     apply agree_ext_l; [exact Hag|].
     destruct Hcm as (Hr & _). apply agree_sym in Hag. eapply agree_len; [exact Hag | lia].
@@ -241,22 +253,22 @@ Section CommitDefs.
 
   (* a prefix committed up to term T agrees with the log of T's leader *)
   Lemma cprefix_llog n T c l :
-    inv1 V n -> inv2 n -> inv3 n ->
+    inv2 n -> inv3b n ->
     cprefix n T c l -> lead n T <> None -> agree c l (llog n T).
   Proof.
-    intros H1 H2 H3 [->|(t' & k' & Ht & Hc & Hcm & Hag)] Hl; [apply agree_0|].
+    intros H2 H3 [->|(t' & k' & Ht & Hc & Hcm & Hag)] Hl; [apply agree_0|].
     destruct (Nat.eq_dec t' T) as [->|Hne]; [exact Hag|].
     eapply agree_trans; [exact Hag|]. apply agree_sym.
     eapply agree_le; [|exact Hc].
-    apply (leader_completeness1 n H1 H2 H3); [exact Hcm | lia | exact Hl].
+    apply (leader_completeness1 n H2 H3); [exact Hcm | lia | exact Hl].
   Qed.
 
   (* two committed prefixes agree *)
   Lemma cprefix_agree2 n T1 T2 c1 c2 l1 l2 k :
-    inv1 V n -> inv2 n -> inv3 n ->
+    inv2 n -> inv3b n ->
     cprefix n T1 c1 l1 -> cprefix n T2 c2 l2 -> k <= c1 -> k <= c2 -> agree k l1 l2.
   Proof.
-    intros H1 H2 H3 [->|(t1 & k1 & Ht1 & Hc1 & Hcm1 & Hag1)] P2 Hk1 Hk2.
+    intros H2 H3 [->|(t1 & k1 & Ht1 & Hc1 & Hcm1 & Hag1)] P2 Hk1 Hk2.
     { replace k with 0 by lia. apply agree_0. }
     destruct P2 as [->|(t2 & k2 & Ht2 & Hc2 & Hcm2 & Hag2)].
     { replace k with 0 by lia. apply agree_0. }
@@ -270,9 +282,18 @@ Section CommitDefs.
     apply (agree_le _ k) in Hag2; [|lia].
     eapply agree_trans; [exact Hag1|]. eapply agree_trans; [|apply agree_sym; exact Hag2].
     destruct (Nat.lt_trichotomy t1 t2) as [Hlt|[->|Hlt]].
-    - apply agree_sym. eapply agree_le; [apply (leader_completeness1 n H1 H2 H3 t2 t1 k1)|]; auto. lia.
+    - apply agree_sym. eapply agree_le; [apply (leader_completeness1 n H2 H3 t2 t1 k1)|]; auto. lia.
     - apply agree_refl.
-    - eapply agree_le; [apply (leader_completeness1 n H1 H2 H3 t1 t2 k2)|]; auto. lia.
+    - eapply agree_le; [apply (leader_completeness1 n H2 H3 t1 t2 k2)|]; auto. lia.
+  Qed.
+
+  (* with a fixed voter set: the committed prefix of a node agrees with its leader's log *)
+  Lemma agl_fixed n : inv2 n -> inv3a n -> inv3b n -> agl n.
+  Proof.
+    intros H2 H3a H3b w T HT Hl.
+    pose proof (i_hcommit n H3b w) as Hc. rewrite HT in Hc.
+    pose proof (cprefix_llog n T _ _ H2 H3b Hc Hl) as Hag.
+    split; [exact Hag|]. eapply agree_len; [exact Hag|]. apply (i_commit_bounds n H3a w).
   Qed.
 
 End CommitDefs.
